@@ -43,6 +43,13 @@ Section P.
   Qed.
 End P.
 
+(* the range proof the honest prover returns names the commitment it was made for *)
+Lemma boudot_prove_E BP v c g h n a b ds p ds' : boudot_prove BP v c g h n a b ds = Ok (p, ds') -> bd_E p = c_value c.
+Proof.
+  intros H. unfold boudot_prove in H. destruct (b <=? a); [discriminate|].
+  mstep H Ep e1 HEp. mstep H wt e2 Hwt. apply mret_ok in H as [-> _]. reflexivity.
+Qed.
+
 Section Q.
   Variable CS : clsuite.
   Variable BP : bparams.
@@ -100,6 +107,7 @@ Section Q.
       rewrite Hmi in Hm'. inversion Hm'; subst m; clear Hm'.
       cbn [map fst snd spok_verify_loop]. rewrite Hg. cbn [bind]. cbn [pv_value pv_com]. rewrite HN.
       rewrite (nisp2sec_complete_u n Hn CS g gi (ck_h ck) hi Hgi Hh mi cmi _ _ _ HC Hpmi). cbn [bind negb].
+      rewrite (boudot_prove_E _ _ _ _ _ _ _ _ _ _ _ Hrp), Z.eqb_refl. cbn [negb].
       rewrite (boudot_complete n Hn g gi (ck_h ck) hi Hgi Hh BP mi cmi 0 (max_x CS) _ _ _ Ht HC Hrp). cbn [bind negb].
       eapply IH. exact Hrest.
   Qed.
